@@ -93,6 +93,13 @@ func CollectCommodities(journal *ast.Journal) []string {
 					commodities = append(commodities, symbol)
 				}
 			}
+			if posting.BalanceAssertion != nil {
+				symbol := posting.BalanceAssertion.Amount.Commodity.Symbol
+				if symbol != "" && !seen[symbol] {
+					seen[symbol] = true
+					commodities = append(commodities, symbol)
+				}
+			}
 		}
 	}
 
